@@ -267,7 +267,7 @@ func c01DupEq(e, o interface{}, dup *bool) bool {
 			}
 			return true
 		}
-		if len(et) == 0 || len(ot)%len(et) != 0 {
+		if len(et) == 0 || len(ot)%len(et) != 0 || len(ot) < 2*len(et) {
 			return false
 		}
 		k := len(ot) / len(et)
@@ -392,6 +392,7 @@ func runC01(c *Ctx) {
 	}
 	parallel := 14
 
+	c01KernelDiff(c)
 	cases := c01ReadCorpus(c.Corpus)
 	cases = append(cases, c01ReadCorpus(filepath.Join(filepath.Dir(c.Corpus), "tiera"))...)
 	nCorpus := len(cases)
